@@ -64,7 +64,7 @@ QueueLB(v, x) ==
 (* coefs: function from a subset of the created variables to costs; c: the constant term.
    The new objective REPLACES the old one completely: coefficients of other columns 0, constant = c. *)
 SetObjective(coefs, c, s) ==
-  /\ DOMAIN coefs \subseteq CreatedSet /\ DOMAIN coefs # {} /\ s \in {"minimize", "maximize"}
+  /\ DOMAIN coefs \subseteq CreatedSet /\ CreatedSet # {} /\ s \in {"minimize", "maximize"}      \* (DOMAIN coefs = {}: an objective without terms, e.g. a sum over no variables plus a constant)
   /\ cost' = [v \in Vars |-> IF v \in DOMAIN coefs THEN coefs[v] ELSE 0]
   /\ sense' = s /\ offset' = c
   /\ UNCHANGED <<created, lb, ub, pfix, plb, status, snap>>
@@ -92,7 +92,7 @@ GetValues(S) == /\ status = "Optimal" /\ S \subseteq snap.cols /\ S # {} /\ UNCH
 
 WNext == \/ \E v \in Vars, l, u \in Vals : AddVar(v, l, u)
          \/ \E v \in Vars, x \in Vals : QueueFix(v, x) \/ QueueLB(v, x)
-         \/ \E D \in ({CreatedSet} \cup {{v} : v \in CreatedSet}) \ {{}} : \E c \in [D -> Costs], k \in Offsets, s \in {"minimize", "maximize"} : SetObjective(c, k, s)
+         \/ \E D \in {CreatedSet} \cup {{v} : v \in CreatedSet} \cup {{}} : \E c \in [D -> Costs], k \in Offsets, s \in {"minimize", "maximize"} : SetObjective(c, k, s)
          \/ Optimize
          \/ \E S \in (SUBSET Vars) \ {{}} : GetValues(S)
 WSpec == WInit /\ [][WNext]_wvars
